@@ -406,8 +406,10 @@ impl<const N: usize> Session<N> {
         Self { client_session_id, server_session_id, packet_id, user }
     }
 
-    pub fn increase_packet_id(&mut self) {
-        self.packet_id = self.packet_id.wrapping_add(1);
+    /// Advances the packet id; `None` once the ids of this session are exhausted.
+    pub fn increase_packet_id(&mut self) -> Option<u64> {
+        self.packet_id = self.packet_id.checked_add(1)?;
+        Some(self.packet_id)
     }
 }
 
